@@ -1,6 +1,7 @@
 package main
 
 import (
+	"strings"
 	"fmt"
 	"go/token"
 	"go/types"
@@ -25,6 +26,7 @@ func init() {
 			c08R2(c, "C13.R7")
 			ruleSyncAfterWrite(c, "C13.R8")
 			ruleOncePublication(c, "C13.R9")
+			c13R10(c, "C13.R10")
 		},
 	})
 }
@@ -372,5 +374,61 @@ func ruleOncePublication(c *Ctx, id string) {
 			})
 		}
 		c.check(id+":(*Tx).check:loads-before-use", ck, ck.Pos(), "the integrity check uses db.freelist only after db.loadFreelist() returned (read-only databases load it lazily)", bad == "", bad)
+	})
+}
+
+// c13R10: "however these options are changed between closing and reopening the same file": the page size of
+// an existing file is a property of the file. In Open every path to the first mapping either initialises a
+// new (empty) file or has stored the result of getPageSize() into db.pageSize as the LAST store to it;
+// no function other than Open assigns db.pageSize.
+func c13R10(c *Ctx, id string) {
+	c.rule(id, "page-size-from-the-file", 2, func() {
+		psF := c.dbField("pageSize")
+		open := c.fn("bbolt.Open")
+		var fromFile []*ssa.Store
+		var owners []string
+		for _, st := range storesToField(c.P.FnsIn(rootPkg), psF) {
+			fn := st.Instr.Parent()
+			if topLevel(fn) != open {
+				owners = append(owners, shortFn(fn))
+				continue
+			}
+			for _, l := range provenance(st.Val, provOpts{}) {
+				if l.Kind == "call" && l.Name == "bbolt.(*DB).getPageSize" {
+					if s, ok := st.Instr.(*ssa.Store); ok {
+						fromFile = append(fromFile, s)
+					}
+				}
+			}
+		}
+		c.check(id+":DB.pageSize:owners", open, open.Pos(), "DB.pageSize is assigned only in Open", len(owners) == 0, "also assigned in "+strings.Join(owners, ", "))
+		inits := plainCallsIn(open, "bbolt.(*DB).init")
+		mmaps := plainCallsIn(open, "bbolt.(*DB).mmap")
+		bad := ""
+		switch {
+		case len(fromFile) != 1:
+			bad = fmt.Sprintf("%d stores of getPageSize()'s result into db.pageSize, want 1", len(fromFile))
+		case len(inits) != 1 || len(mmaps) != 1:
+			bad = fmt.Sprintf("%d db.init calls, %d db.mmap calls in Open", len(inits), len(mmaps))
+		default:
+			sf, ini, mm := fromFile[0], ssa.Instruction(inits[0]), ssa.Instruction(mmaps[0])
+			// every path to mmap passes init or the file store
+			stop := func(in ssa.Instruction) bool { return in == ini || in == ssa.Instruction(sf) }
+			if reach(nil, []*ssa.BasicBlock{open.Blocks[0]}, stop, nil)[mm] {
+				bad = "db.mmap is reachable in Open without db.init() (new file) or db.pageSize = getPageSize() (existing file)"
+			}
+			// the file's page size is the last word: no other store to db.pageSize after it
+			after := reach([]ssa.Instruction{sf}, nil, nil, nil)
+			for _, st := range storesToField([]*ssa.Function{open}, psF) {
+				if st.Instr != ssa.Instruction(sf) && after[st.Instr] {
+					bad = fmt.Sprintf("db.pageSize is overwritten at %s after the file's own page size was read", c.P.Position(st.Instr.Pos()))
+				}
+			}
+			// the existing-file branch does not run init
+			if after[ini] || reach([]ssa.Instruction{ini}, nil, nil, nil)[sf] {
+				bad = "db.init() and the getPageSize() store are on the same path"
+			}
+		}
+		c.check(id+":bbolt.Open:existing-file-page-size", open, open.Pos(), "for an existing file the page size in force when the file is first mapped is the one read from the file's meta pages (Options.PageSize only seeds new files)", bad == "", bad)
 	})
 }
